@@ -110,6 +110,15 @@ func (c *Ctx) readerRun(name string, cases []*RCase, withStd bool) (int, error) 
 	return c.Report(viols, byID, "ReaderTrace", "TV_Reader.cfg")
 }
 
+// readerModels model-checks the design-level reader specifications: ReaderMech with its own
+// invariants, and ReaderMech under the monitor that judges it by ReaderContract's clauses.
+func (c *Ctx) readerModels() error {
+	if err := c.ModelCheck("MCR", "MC_ReaderMech.cfg", 10*time.Minute); err != nil {
+		return err
+	}
+	return c.ModelCheck("ReaderRefine", "MC_ReaderRefine.cfg", 10*time.Minute)
+}
+
 // clauses the standard library itself is known not to meet (DESIGN R3); they
 // only ever excuse the standard library's own traces.
 var stdTolerated = map[string]bool{}
@@ -229,7 +238,7 @@ func checkC04(c *Ctx) (int, error) {
 	c.ev.Level = "model_checking"
 	c.ev.Assumptions = []string{"schedules: the full product of source chunkings x bufio sizes x Read sizes listed in the rule on every stream of the run; streams (valid and truncated) are seeded samples",
 		"the outcome of the first schedule of a stream is the reference for the others; C02/C03 tie it to the truth"}
-	if err := c.ModelCheck("MCR", "MC_ReaderMech.cfg", 10*time.Minute); err != nil {
+	if err := c.readerModels(); err != nil {
 		return 0, err
 	}
 	rng := rand.New(rand.NewSource(c.Seed))
